@@ -6,7 +6,7 @@ import PsutilModel.Proofs.C03Methods
 namespace Psutil.C03
 open Spec
 
-variable (r : Bool)
+variable (r : Host)
 
 /-- only NoSuchProcess(p) -/
 def NspOnly (p : Nat) : Ctx → Nat → PyExc → Prop := fun _ _ e => e = .nsp p
@@ -54,7 +54,9 @@ theorem isRunning_safe (o : Obj) : Tri NoExc (Fe.isRunning (goodCfg r) o) (fun _
   · split
     · exact tri_pure trivial
     · exact tri_pure trivial
-    · split <;> exact tri_pure trivial
+    · split
+      · exact tri_pure trivial
+      · split <;> exact tri_pure trivial
 
 theorem raiseIfPidReused_safe (o : Obj) :
     Tri (NspOnly o.pid) (Fe.raiseIfPidReused (goodCfg r) o) (fun _ => True) := by
@@ -235,10 +237,10 @@ theorem asDictLoop_safe (o : Obj) (explicit : Bool) : ∀ (attrs : List String) 
 
 theorem cacheInv_new (p : Nat) : CacheInv { owner := p, active := true } := by intro x h; cases h
 
-theorem asDict_safe (o : Obj) (attrs : List String)
+theorem asDictOf_safe (o : Obj) (explicit : Bool) (attrs : List String)
     (hall : ∀ nm ∈ attrs, nm ∈ getterNames) :
-    Tri (NspOnly o.pid) (Fe.asDict (goodCfg r) o attrs) (fun _ => True) := by
-  unfold Fe.asDict
+    Tri (NspOnly o.pid) (Fe.asDictOf (goodCfg r) o explicit attrs) (fun _ => True) := by
+  unfold Fe.asDictOf
   refine tri_bind (Q := fun _ => True) ?_ (fun entered _ => ?_)
   · unfold Fe.oneshotEnter
     refine tri_bind tri_getCache (fun k _ => ?_)
@@ -249,7 +251,7 @@ theorem asDict_safe (o : Obj) (attrs : List String)
         | .ok _ => True
         | .error e => e = PyExc.nsp o.pid) ?_ (fun x hx => ?_)
     · refine tri_tryCatch (E' := NspOnly o.pid)
-        (tri_bind (asDictLoop_safe r o true attrs 0 [] hall) (fun _ _ => tri_pure trivial))
+        (tri_bind (asDictLoop_safe r o explicit attrs 0 [] hall) (fun _ _ => tri_pure trivial))
         (fun e h => by cases h) (fun e m' h he => ?_)
       cases h
       obtain ⟨_, _, he⟩ := he
@@ -262,6 +264,15 @@ theorem asDict_safe (o : Obj) (attrs : List String)
       · cases x with
         | ok v => exact tri_pure trivial
         | error e => exact tri_throw (fun _ _ => hx)
+
+theorem asDict_safe (o : Obj) (attrs : List String)
+    (hall : ∀ nm ∈ attrs, nm ∈ getterNames) :
+    Tri (NspOnly o.pid) (Fe.asDict (goodCfg r) o attrs) (fun _ => True) := asDictOf_safe r o true attrs hall
+
+/-- as_dict() / as_dict(attrs=None): the same policy over every name of `_as_dict_attrnames` -/
+theorem asDictAll_safe (o : Obj) (names : List String)
+    (hall : ∀ nm ∈ names, nm ∈ getterNames) :
+    Tri (NspOnly o.pid) (Fe.asDictAll (goodCfg r) o names) (fun _ => True) := asDictOf_safe r o false names hall
 
 /-! ### process_iter(attrs): nothing escapes -/
 
